@@ -28,7 +28,7 @@ ASSUMPTIONS = [
     "fitted third-party estimator objects held by surrogate samplers are excluded from the canonical state",
     "Python scalars compare with == (True == 1, 3 == 3.0); list vs tuple is not a difference",
 ]
-REQUIRED_COUNTERS = {"relative_folder_cases": 10, "restores_compared": 60, "tuple_roundtrips_json": 40, "tuple_roundtrips_sqlite": 40, "prepopulated_folder": 15,
+REQUIRED_COUNTERS = {"many_parameter_cases": 8, "relative_folder_cases": 10, "restores_compared": 60, "tuple_roundtrips_json": 40, "tuple_roundtrips_sqlite": 40, "prepopulated_folder": 15,
                      "no_batch_yet": 3, "after_set_samplers": 3, "convergence_stop": 3, "rl_scheduler": 3}
 SHARDS = {"quick": 16, "thorough": 16}
 SHARD_WATCHDOG = {"quick": 1500, "thorough": 10800}
@@ -72,6 +72,7 @@ def compare_restore(cal, folder, model, out, wit, label):
         out["violations"].append({"msg": f"{label}: restore raised {type(e).__name__}: {str(e)[:200]}", "witness": wit})
         return None
     c["restores_compared"] = c.get("restores_compared", 0) + 1
+    out["evals"] += 1   # one evaluation per restore compared with the live state
     d = S.diff(live, got)
     if d:
         out["violations"].append({"msg": f"{label}: restored state differs from the saved one: " + "; ".join(d[:4]), "witness": dict(wit, n_differences=len(d))})
@@ -86,7 +87,11 @@ def run_cal(desc, ctx, out):
     i = desc["i"]
     rl = i % 8 == 7
     heavy = i % 5 == 0
-    cfg = CG.gen_config(rng, kinds=None if heavy else G.CHEAP + ["CORS"], scheduler="rl" if rl else None, n_samplers=int(rng.integers(1, 5)), max_bs=3)
+    many = i % 6 == 2   # a dozen parameters: column order and naming beyond a single digit
+    cfg = CG.gen_config(rng, kinds=(G.CHEAP if many else None) if (heavy or many) else G.CHEAP + ["CORS"], scheduler="rl" if rl else None,
+                        n_samplers=int(rng.integers(1, 5)), max_bs=3, params=int(rng.integers(11, 14)) if many else None)
+    if many:
+        c["many_parameter_cases"] = c.get("many_parameter_cases", 0) + 1
     folder = ctx.scratch() / "ck"
     relative = i % 3 == 1
     if relative:
@@ -211,7 +216,6 @@ def run_cal(desc, ctx, out):
             with quiet():
                 cal.set_samplers([G.build_sampler(d) for d in new])
             c["after_set_samplers"] = c.get("after_set_samplers", 0) + 1
-    out["evals"] += 1
     if desc["i"] < 2:
         out["sample"] = {"ops": wit["ops"], "folder_before": pre, "lineup": [d["kind"] for d in cfg["lineup"]], "scheduler": cfg["scheduler"]}
 
@@ -261,7 +265,7 @@ def run_tuple(desc, ctx, out):
     rng = rng_for(desc["seed"], 4, 1, desc["i"])
     c = out["counters"]
     for rep in range(4):
-        P, D, E, N = (int(x) for x in (rng.integers(1, 5), rng.integers(1, 3), rng.integers(1, 3), rng.integers(1, 6)))
+        P, D, E, N = (int(x) for x in (rng.integers(1, 5) if rep % 2 else rng.integers(1, 14), rng.integers(1, 3), rng.integers(1, 3), rng.integers(1, 6)))
         rows = int(rng.integers(0, 12))
         backend = "sqlite" if rep % 2 else "json"
 
